@@ -21,6 +21,8 @@ REQUIRED = [
     'Ems.C06.missing_no_polygon', 'Ems.C06.storedCorners_spec', 'Ems.C06.ugrid_bad_node', 'Ems.C06.midBounds_length', 'Ems.C06.mask_iff', 'Ems.C06.invalid_dropped', 'Ems.C06.warned_iff',
     'Ems.C06.bbox_spec', 'Ems.C06.cf1d_box_is_union', 'Ems.C06.cf1d_cell_is_polygon',
     'Ems.C06.cellsCover_iff', 'Ems.C06.cellsCover_polygon', 'Ems.C06.cf1d_box_cover',
+    # the cached accessors of one convention object read in any order (Core/ConvReads.lean)
+    'Ems.C06.reads_order_independent', 'Ems.C06.mask_first_iff',
     # the numpy pipelines as the source has them (Gen/Pipelines.lean, translated by harness/pipelines.py on every run)
     'Ems.C06.pipelines_translated', 'Ems.C06.pipeline_eval_get',
     'Ems.C06.cf1d_pipeline_spec', 'Ems.C06.cf2d_pipeline_spec', 'Ems.C06.arakawa_pipeline_spec',
@@ -45,6 +47,14 @@ RULE = ('datasets of every convention from the recipe generator: CF 1-D axes asc
         'are whole numbers while the other axis keeps half / quarter bounds, a float64 axis next to a float32 one carries an offset of 5/2^30 '
         'that float32 cannot hold: a value is only ever stored in a type that holds it exactly, so the cell the dataset describes does not '
         'depend on the storage types. '
+        'Self-intersecting cells in every convention that can hold one: CF 2-D / SHOC simple stored corners in crossing order, a SHOC '
+        'standard node displaced across the opposite side of its face (`moved_nodes`), two neighbouring nodes of a UGRID face listed the '
+        'other way round. '
+        'Read histories: every dataset is bound a second time and the cached accessors of that fresh convention object (mask, polygons, '
+        'geometry, bounds, face_centres, strtree) are read in a generated order — a random permutation, half of the time with `mask` '
+        'before anything that builds the polygons, then one of them a second time; polygons / mask / bounds / warning of that object go '
+        'through the model of the cache (`reads <order> polys …`), the mask is compared with its own polygons and with the cells the '
+        'generator made, a repeated read with the first one, and every accessor with its value on the object read polygons-first. '
         'Non-trivial: dataset with a hole, an invalid cell, derived bounds, a non-quad face, overlapping cells, mixed storage types, '
         'or a non-default storage of coordinates; distinct by recipe. '
         'Pipelines: the source text of CFGrid1D._make_polygons, CFGrid2D._make_polygons, ArakawaC._make_polygons, the derived-bounds '
@@ -109,10 +119,17 @@ def make_recipe(ctx, k: int) -> dict:
     elif conv in ('cf2d', 'shoc_simple'):
         if recipe.get('bounds') == 'stored' and rng.random() < 0.3:
             recipe['grow'] = True        # stored corners reach into the neighbouring cells
+    elif conv == 'shoc_standard':
+        if rng.random() < 0.35:
+            X.move_node(rng, recipe)     # a node displaced across the opposite side of a face: a self-intersecting face
     elif conv == 'ugrid':
         if rng.random() < 0.4:
             # hanging nodes: two faces share part of an edge without matching node for node
             X.add_hanging_nodes(rng, recipe, rng.choice([1, 1, 2]))
+        if rng.random() < 0.25:
+            X.twist_face(rng, recipe)    # two neighbouring nodes of a face listed the other way round: it crosses itself
+    # the order in which the cached accessors of a second, fresh convention object of this dataset are read
+    recipe['reads'] = X.read_history(rng)
     return recipe
 
 
@@ -197,6 +214,8 @@ def examine(ctx, recipe: dict, items: list) -> None:
             sig = 'ugrid-node-coords-as-coordinates-keyerror'
         ctx.oracle_fail(sig, desc, f'building polygons raised {err}')
         return
+    if recipe.get('reads'):
+        history_items(ctx, recipe, c, kept, with_bounds, line, items)
     polys = c.polygons
     # (naming the failure only) stored bounds held as coordinates that were not used: the topology answers with midpoints
     bounds_ignored = False
@@ -271,6 +290,110 @@ def examine(ctx, recipe: dict, items: list) -> None:
             elif bounds_ignored:
                 sig = 'cf1d-bounds-as-coordinates-ignored'
             ctx.oracle_fail(sig, desc, 'geometry is not the union of the cell polygons' + why)
+
+
+def _same(name: str, a, b) -> bool:
+    """the value accessor `name` gave on two convention objects of the same dataset is the same"""
+    if name == 'mask':
+        return [bool(v) for v in a] == [bool(v) for v in b]
+    if name == 'polygons':
+        return [None if p is None else S.impl_ring(p) for p in a] == [None if p is None else S.impl_ring(p) for p in b]
+    if name == 'bounds':
+        a, b = np.asarray(a, dtype='f8'), np.asarray(b, dtype='f8')      # (NaN where a node of the extent is missing)
+        return a.shape == b.shape and bool(np.array_equal(a, b, equal_nan=True))
+    if name == 'geometry':
+        return (a.is_empty and b.is_empty) or bool(a.equals(b))
+    if name == 'face_centres':
+        a, b = np.asarray(a), np.asarray(b)
+        return a.shape == b.shape and bool(np.array_equal(a, b, equal_nan=True))
+    if name == 'strtree':
+        return len(a.geometries) == len(b.geometries)
+    return True
+
+
+def history_items(ctx, recipe: dict, ref, kept: list, with_bounds: bool, line: str, items: list) -> None:
+    """A second, fresh convention object of the same dataset whose cached accessors are read in the order
+    recipe['reads'] (mask before polygons, bounds / geometry / strtree first, one of them twice, …).
+    Oracle: the mask says which cells have a polygon, and which cells the dataset describes, whatever was read
+    before; every accessor answers what it answers on the object read in the usual order (`ref`: polygons first).
+    Correspondence: `reads <order> polys …` (Core/ConvReads.lean)."""
+    reads = [str(a) for a in recipe['reads']]
+    desc = {'recipe': recipe, 'reads': reads}
+    rl = f"reads {','.join(reads)} {line}"
+    if any(a not in X.ACCESSORS for a in reads):
+        raise ValueError(f'unknown accessor in {reads}')
+    conv = G.bind(G.build(recipe))
+    first, again, warned = X.read_accessors(conv, reads + ['polygons', 'mask', 'bounds'])
+    # ---- correspondence
+    try:
+        if first['polygons'][0] != 'ok' or first['mask'][0] != 'ok':
+            raise ValueError('polygons / mask raised')
+        rings = '|'.join('-' if p is None else S.ring_str(S.impl_ring(p)) for p in first['polygons'][1])
+        mbits = ''.join('1' if m else '0' for m in first['mask'][1])
+        if not with_bounds:
+            bs = 'skip'
+        elif first['bounds'][0] == 'ok':
+            bs = ','.join(S.rat_str(Fraction(float(v))) for v in first['bounds'][1])
+        else:
+            bs = 'ERR'
+        impl = f"{rings} M={mbits} B={bs} W={1 if warned else 0}"
+    except Exception:
+        impl = 'ERR'
+    items.append((rl, impl, {'recipe': recipe, 'op': rl}))
+    ctx.count('reads:first=' + reads[0])
+    before = reads[:reads.index('mask')] if 'mask' in reads else reads
+    if not any(a in before for a in ('polygons', 'geometry', 'strtree', 'bounds')):
+        ctx.count('reads:mask-before-polygons' + ('+invalid-cell' if 'W=1' in impl else ''))
+    # ---- direct oracle
+    how = f"(accessors of one convention object read in the order {', '.join(reads)})"
+    if first['mask'][0] != 'ok' or first['polygons'][0] != 'ok':
+        bad = 'mask' if first['mask'][0] != 'ok' else 'polygons'
+        ctx.oracle_fail('accessor-raises-after-reads', {**desc, 'accessor': bad}, f'{bad} raised {first[bad][1]} {how}')
+        return
+    try:
+        mask = [bool(m) for m in first['mask'][1]]
+        has = [p is not None for p in first['polygons'][1]]
+    except Exception as e:
+        ctx.oracle_fail('mask-inconsistent', desc, f'mask / polygons cannot be read as arrays: {type(e).__name__}: {e} {how}')
+        return
+    if mask != has:
+        wrong = [n for n, (m, h) in enumerate(zip(mask, has)) if m != h] or ['length']
+        ctx.oracle_fail('mask-inconsistent', {**desc, 'cell': wrong[0]},
+                        f'mask does not say which cells have polygons: cell {wrong[0]} has mask '
+                        f'{mask[wrong[0]] if wrong[0] != "length" else len(mask)} and '
+                        f'{"a" if wrong[0] != "length" and has[wrong[0]] else "no"} polygon {how}')
+        return
+    if mask != [k is not None for k in kept]:
+        ctx.oracle_fail('mask-differs-from-cells', desc,
+                        f'mask {"".join("1" if m else "0" for m in mask)}, the cells the dataset describes (valid, complete) are '
+                        f'{"".join("0" if k is None else "1" for k in kept)} {how}')
+        return
+    for name, got in again:
+        try:
+            same = got[0] == first[name][0] and (got[0] != 'ok' or _same(name, got[1], first[name][1]))
+        except Exception:
+            same = False
+        if not same:
+            ctx.oracle_fail('accessor-changes-between-reads', {**desc, 'accessor': name},
+                            f'{name} answered differently the second time {how}')
+            return
+    for name in X.ACCESSORS:
+        if name not in first:
+            continue
+        try:
+            want = ('ok', getattr(ref, name))
+        except Exception as e:
+            want = ('err', f'{type(e).__name__}: {e}')
+        got = first[name]
+        try:
+            same = got[0] == want[0] and (got[0] != 'ok' or _same(name, got[1], want[1]))
+        except Exception:
+            same = False
+        if not same:
+            ctx.oracle_fail('accessor-depends-on-read-order', {**desc, 'accessor': name},
+                            f'{name} is {got[1] if got[0] == "err" else "a different value"} {how}; read after polygons on another '
+                            f'object of the same dataset it is {want[1] if want[0] == "err" else "something else"}')
+            return
 
 
 def geometry_items(ctx, recipe: dict, built, c, items: list) -> None:
